@@ -1017,5 +1017,17 @@ func main() {
 		runPool(n, os.Args[3], par)
 		return
 	}
+	if len(os.Args) >= 4 && os.Args[1] == "stresschild" {
+		seed, _ := strconv.ParseInt(os.Args[2], 10, 64)
+		secs, _ := strconv.ParseFloat(os.Args[3], 64)
+		stressChild(seed, secs)
+		return
+	}
+	if len(os.Args) >= 4 && os.Args[1] == "stress" {
+		secs, _ := strconv.ParseFloat(os.Args[2], 64)
+		rounds, _ := strconv.Atoi(os.Args[3])
+		runStress(secs, rounds)
+		return
+	}
 	vh.Fatal("usage: c37 pool <n> <outdir> <par> | c37 one <seed> <trace> | c37 directed <schedule.json> <trace>")
 }
